@@ -112,7 +112,10 @@ theorem recognise_cons (c0 : UInt8) (tl : Bytes) :
 def Agrees (r : RF) (p : Parsed) (lit : Nat) : Prop :=
   r.ok = true ∧ r.neg = p.neg ∧ r.hex = p.hex ∧ r.mant < 2 ^ 64 ∧
   (r.trunc = false → ∃ j : Nat, p.mant = r.mant * baseOf p.hex ^ j ∧
-    (r.mant ≠ 0 → lit < 10000 → r.exp = p.exp + (((if p.hex then 4 else 1) * j : Nat) : Int)))
+    (r.mant ≠ 0 → lit < 10000 → r.exp = p.exp + (((if p.hex then 4 else 1) * j : Nat) : Int))) ∧
+  (r.trunc = true → ∃ j : Nat, r.mant * baseOf p.hex ^ j < p.mant ∧ p.mant < (r.mant + 1) * baseOf p.hex ^ j ∧
+    baseOf p.hex ^ (maxDOf p.hex - 1) ≤ r.mant ∧
+    (lit < 10000 → r.exp = p.exp + (((if p.hex then 4 else 1) * j : Nat) : Int)))
 
 /-- value of the exponent literal of a text (0 if it has none) -/
 def expLit (s : Bytes) : Nat :=
